@@ -25,6 +25,11 @@ type Scn struct {
 
 var registry []Scn
 
+var (
+	theConformer *conformer
+	conformCount int64
+)
+
 // Fam is a family of scenarios indexed 0..Count-1 (one Stats entry for the whole family; members
 // are distributed over the shards, each member is explored completely by its shard).
 type Fam struct {
@@ -142,7 +147,11 @@ func main() {
 			sc := s.Make(*tier)
 			sc.Name = s.Name
 			e := &zzvrt.Explorer{S: sc, Shard: si, NShards: sn, Deadline: dl}
+			c0 := conformCount
 			e.Explore()
+			if conformCount > c0 {
+				e.Stats.Extra = map[string]int64{"vfs_traces_replayed_on_real_fs": conformCount - c0}
+			}
 			res.Scenarios = append(res.Scenarios, e.Stats)
 		}
 		for _, f := range families {
@@ -153,6 +162,9 @@ func main() {
 				continue
 			}
 			res.Scenarios = append(res.Scenarios, runFamily(f, *tier, si, sn, dl, -1))
+		}
+		if theConformer != nil {
+			theConformer.close()
 		}
 		res.WallS = time.Since(t0).Seconds()
 		b, _ := json.Marshal(res)
